@@ -30,6 +30,8 @@ type Config struct {
 	PointLimit   int
 	NoServer     bool // the B end is left to the test (wire-level peer)
 	NoClient     bool // the A end is left to the test (wire-level peer)
+	// Handler, when set, replaces the scripted handler on the server side (not serialised).
+	Handler drpc.Handler `json:"-"`
 }
 
 // Step is one scripted API call of an actor.
@@ -257,7 +259,11 @@ func NewWorld(cfg Config, rpcs []RPC) *World {
 		ctx, cancel := context.WithCancel(context.Background())
 		w.sCancel = cancel
 		w.srvDone = make(chan struct{})
-		srv := drpcserver.NewWithOptions(handler{w}, drpcserver.Options{Manager: mopts})
+		var h drpc.Handler = handler{w}
+		if cfg.Handler != nil {
+			h = cfg.Handler
+		}
+		srv := drpcserver.NewWithOptions(h, drpcserver.Options{Manager: mopts})
 		go func() { defer close(w.srvDone); w.srvErr = srv.ServeOne(ctx, w.B) }()
 	}
 	if !cfg.NoClient {
